@@ -34,6 +34,32 @@ TRUSTED_BASE = [
 ]
 
 
+class ImplTimeout(BaseException):
+    """The implementation did not return within the per-case time limit."""
+
+
+class time_limit:
+    """with time_limit(5): call the implementation. Raises ImplTimeout (a
+    BaseException, so the code under test cannot swallow it by accident)."""
+
+    def __init__(self, seconds):
+        self.seconds = seconds
+
+    def _fire(self, signum, frame):
+        raise ImplTimeout("no answer within %ss" % self.seconds)
+
+    def __enter__(self):
+        import signal
+        self.old = signal.signal(signal.SIGALRM, self._fire)
+        signal.setitimer(signal.ITIMER_REAL, self.seconds)
+
+    def __exit__(self, *a):
+        import signal
+        signal.setitimer(signal.ITIMER_REAL, 0)
+        signal.signal(signal.SIGALRM, self.old)
+        return False
+
+
 class HarnessError(Exception):
     """Tool trouble: exit 2, never a VIOLATION."""
 
@@ -287,6 +313,9 @@ class Ctx:
             if k["id"] not in self.known_hits:
                 self.known_hits[k["id"]] = k["what"]
             return False
+        self.extra["oracle_failures"] = self.extra.get("oracle_failures", 0) + 1
+        if len(self.violations) >= 5:
+            return True      # enough replays written; the rest are counted
         tag = json.dumps(signature, sort_keys=True) + what
         path = self.replay_path(tag)
         with open(path, "w") as fh:
